@@ -114,6 +114,7 @@ impl std::fmt::Display for ProbeErr {
     }
 }
 impl std::error::Error for ProbeErr {}
+impl miette::Diagnostic for ProbeErr {}
 
 impl Ctl {
     /// the common part of every probe: draw one word (probes with an odd number by a 32-bit draw), log, maybe fail
@@ -461,12 +462,53 @@ fn display_path(e: &(dyn std::error::Error + 'static), depth: usize) -> Option<T
         _ => None,
     }
 }
-fn fin<T: ToVal, E: std::error::Error + 'static>(r: Result<T, E>) -> Tree {
+/// the crate's errors are `miette::Diagnostic`s; a diagnostic report walks `diagnostic_source()` and falls back on
+/// `source()` where that is `None` - the chain of messages a report shows must be the chain the standard source chain has
+/// (a level skipped in the diagnostic chain hides WHICH element or part failed from the reader of the report)
+fn report_chain_consistent(d: &(dyn miette::Diagnostic + 'static)) -> bool {
+    let mut std_chain: Vec<String> = vec![];
+    let mut cur: Option<&(dyn std::error::Error + 'static)> = d.source();
+    while let Some(x) = cur {
+        std_chain.push(x.to_string());
+        cur = x.source();
+        if std_chain.len() > 64 {
+            return false;
+        }
+    }
+    let mut report: Vec<String> = vec![];
+    let mut at: &dyn miette::Diagnostic = d;
+    loop {
+        if report.len() > 64 {
+            return false;
+        }
+        match at.diagnostic_source() {
+            Some(n) => {
+                report.push(n.to_string());
+                at = n;
+            }
+            None => {
+                let mut cur = at.source();
+                while let Some(x) = cur {
+                    report.push(x.to_string());
+                    cur = x.source();
+                    if report.len() > 64 {
+                        return false;
+                    }
+                }
+                break;
+            }
+        }
+    }
+    report == std_chain
+}
+fn fin<T: ToVal, E: std::error::Error + miette::Diagnostic + 'static>(r: Result<T, E>) -> Tree {
     match r {
         Ok(v) => tl![A(0), v.val()],
         Err(e) => tl![
             A(1),
-            if messages_consistent(&e) {
+            if !report_chain_consistent(&e) {
+                tl![A(-3)]
+            } else if messages_consistent(&e) {
                 match err_tree(&format!("{e:?}")) {
                     L(ref v) if v.len() == 1 && matches!(v[0], A(-1)) => display_path(&e, 0).unwrap_or(tl![A(-1)]),
                     t => t,
